@@ -51,6 +51,7 @@ func FilterMapCollection[K comparable, V any](collection []map[K]V, fn func(V) b
 		for _, v := range item {
 			if fn(v) {
 				filtered = append(filtered, item)
+				break
 			}
 		}
 	}
@@ -67,6 +68,7 @@ func Filter2DMapCollection[K comparable, V any](collection []map[K]map[K]V, fn f
 		for _, v := range item {
 			if fn(v) {
 				filtered = append(filtered, item)
+				break
 			}
 		}
 	}
